@@ -13,6 +13,11 @@ use std::time::Instant;
 
 pub const VERIF: &str = "/verif";
 
+/// where evidence and replay files go: /verif, unless a development run redirects them (ATSMC_OUT)
+pub fn out_root() -> String {
+    std::env::var("ATSMC_OUT").unwrap_or_else(|_| VERIF.to_string())
+}
+
 pub fn hooks_of(kinds: &[HookKind]) -> Vec<Box<dyn StateHook>> {
     kinds
         .iter()
@@ -73,8 +78,8 @@ pub fn path_ops(scen: &Scenario, ex: &Explored, state: usize) -> Vec<Value> {
 }
 
 pub fn write_replay(prop: &str, n: usize, scen_name: &str, tier: Tier, setup: Value, hooks: &[HookKind], path: Vec<Value>, v: &VRec) -> Result<String, String> {
-    std::fs::create_dir_all(format!("{VERIF}/replays")).map_err(|e| e.to_string())?;
-    let file = format!("{VERIF}/replays/{prop}-{n}.json");
+    std::fs::create_dir_all(format!("{}/replays", out_root())).map_err(|e| e.to_string())?;
+    let file = format!("{}/replays/{prop}-{n}.json", out_root());
     let doc = json!({
         "property": prop,
         "signature": v.sig,
@@ -259,7 +264,12 @@ pub fn run_given(prop: &str, tier: Tier, pl: crate::catalogue::Plan, replay_offs
     };
     let caps = Caps { wall_s: if tier == Tier::Quick { 120.0 } else { 1500.0 }, ..Caps::default() };
     let mut nrep = replay_offset;
+    // development aid only (never set by ./check): restrict a plan to the scenarios whose name contains a string
+    let only = std::env::var("ATSMC_ONLY").ok();
     for scen in &pl.scenarios {
+        if only.as_deref().map_or(false, |o| !scen.name.contains(o)) {
+            continue;
+        }
         let ex = match explore(scen, &hooks, &caps) {
             Ok(e) => e,
             Err(e) if e.starts_with("SKIP:") => {
